@@ -162,7 +162,7 @@ CLAIMS = {
              "abbreviation in total is used, none or several end in an exception), T2 a key ends the open value list "
              "of every member, T3 result 'last' ends the evaluation, T4 '!' inverts the next argument of whichever "
              "member owns it and nothing stays armed (T4 reports an open, recorded finding: the present behaviour is "
-             "codified by an unpinned in-tree test, see known_findings.json). Both comparisons of checkArgMix() relate a key of the own container with a key of the other one.",
+             "codified by an unpinned in-tree test, see known_findings.json), T5 a value word continues the open value list of whichever member before any positional argument is tried, T6 no value list stays open when the evaluation ends (scope guard or reset on every normal path). Both comparisons of checkArgMix() relate a key of the own container with a key of the other one.",
         note="trusts clang AST/CFG; per-member identification rules are those of C02; value equality between the "
              "two evaluation paths is not decided",
         technique="static analysis: sibling agreement + per-iteration must-pass-through on the CFG + exhaustive "
